@@ -25,6 +25,9 @@ class NotBoolean(Exception):
 def subject(e) -> Optional[str]:
     p = attr_path(e)
     if p is None:
+        # record fields: tag["file_type"] -> tag['file_type']
+        if isinstance(e, ast.Subscript) and isinstance(e.slice, ast.Constant) and attr_path(e.value):
+            return f"{attr_path(e.value)}[{e.slice.value!r}]"
         return None
     return p[5:] if p.startswith("self.") else p
 
@@ -73,8 +76,13 @@ def _cmp(left, op, right, fold):
     if isinstance(op, (ast.In, ast.NotIn)):
         if ls is None:
             raise NotBoolean("membership without subject")
-        name = attr_path(right) or ast.unparse(right)
-        atom = ("atom", (ls, "in", name))
+        members = rc if isinstance(rc, (set, frozenset, list, tuple)) and isinstance(right, (ast.Set, ast.List, ast.Tuple)) else None
+        if members is not None and 0 < len(members) <= 8 and all(isinstance(m, (int, str, bytes)) for m in members):
+            # membership in a small constant set is the disjunction of the equalities
+            atom = ("or", [("atom", (ls, "==", m)) for m in sorted(members, key=repr)])
+        else:
+            name = attr_path(right) or ast.unparse(right)
+            atom = ("atom", (ls, "in", name))
         return atom if isinstance(op, ast.In) else ("not", atom)
     if lc is not _UNK and rs is not None and rc is _UNK:
         left, right, ls, rs, lc, rc = right, left, rs, ls, rc, lc
